@@ -102,7 +102,8 @@ def iso_dir_name(cfg, k):
 
 
 def long_name(k, very_long=False):
-    base = ['f', 'some file ', 'Ünï-', '日本-'][k % 4] + str(k) + ['', '.txt', ' (copy).tar.gz'][k % 3]
+    # 'aXA', 'xyXA': names whose bytes look like the signature of another structure at a fixed offset of the System Use area
+    base = ['f', 'some file ', 'Ünï-', '日本-', 'aXA-', 'SP', 'xyzwXA'][k % 7] + str(k) + ['', '.txt', ' (copy).tar.gz'][k % 3]
     if very_long:
         base = base + '-' + 'long-rock-ridge-name-' * (7 + k % 5)      # 150..260 bytes: continuation areas
     return base
